@@ -123,7 +123,7 @@ func c03Run(c *Ctx, mem *fastMem, e *enc16, base z80.States, x0, x1 uint32, ys [
 	copy(mem.d[c03PC:], e.Bytes)
 	pre := base
 	pre.PC = c03PC
-	cpu := z80.CPU{Memory: mem}
+	cpu := &z80.CPU{Memory: mem}
 	var n int64
 	reported := 0
 	doubling := e.Src == e.Dst
@@ -138,6 +138,18 @@ func c03Run(c *Ctx, mem *fastMem, e *enc16, base z80.States, x0, x1 uint32, ys [
 		cpu.States = p
 		cpu.HALT = false
 		mem.writes = 0
+		if n&0x3ff == 0x155 {
+			// continue on a by-value copy of the CPU struct (a user may fork or
+			// return a CPU by value); the abandoned struct is scribbled over
+			old := cpu
+			cpu = new(z80.CPU)
+			*cpu = *old
+			*old = z80.CPU{}
+			old.States.BC.SetU16(0x6b6b)
+			old.States.DE.SetU16(0x5a5a)
+			old.States.HL.SetU16(0xa5a5)
+			old.States.IX, old.States.IY, old.States.SP = 0xdead, 0xbeef, 0x1234
+		}
 		cpu.Step()
 		n++
 		yy := y
@@ -300,5 +312,5 @@ func runC03(c *Ctx) {
 	} else {
 		c.R.Set("exhaustive_parts", "doubling forms and INC/DEC ss/IX/IY: all 65536 values x all 256 F")
 	}
-	c.R.Set("rule", "every ss encoding of ADD HL/IX/IY, ADC HL, SBC HL: all 65536 first operands x a lattice of second operands (nibble/sign edges, single bits, PRNG; 512 quick / 2048 thorough) x F in {00,FF,01,FE}, plus all 256 F on a reduced pair set; thorough adds all 2^32 pairs x 4 F for one encoding of each operation; doubling forms and INC/DEC complete (65536 x 256 F). Oracle: 17-bit sum, H from the low 12 bits, overflow by signed range check, Z on the whole word; the whole States value is compared so nothing else may change and no memory write may happen. Each (encoding, x, y, F) tuple is enumerated once: distinct = evaluations by construction, all non-trivial")
+	c.R.Set("rule", "every ss encoding of ADD HL/IX/IY, ADC HL, SBC HL: all 65536 first operands x a lattice of second operands (nibble/sign edges, single bits, PRNG; 512 quick / 2048 thorough) x F in {00,FF,01,FE}, plus all 256 F on a reduced pair set; thorough adds all 2^32 pairs x 4 F for one encoding of each operation; doubling forms and INC/DEC complete (65536 x 256 F). Oracle: 17-bit sum, H from the low 12 bits, overflow by signed range check, Z on the whole word; the whole States value is compared so nothing else may change and no memory write may happen; every 1024th Step continues on a by-value copy of the CPU struct while the abandoned struct is scribbled over. Each (encoding, x, y, F) tuple is enumerated once: distinct = evaluations by construction, all non-trivial")
 }
